@@ -93,7 +93,7 @@ class Seg:
 def segments(ctx: Ctx, q, e, san=frozenset(), depth=0, quoters=frozenset()):
     """Flatten a string-building expression into constant and dynamic segments (with the sanitizers applied)."""
     fi = ctx.fn(q)
-    if depth > 6:
+    if depth > 14:
         return [Seg("dyn", expr=e, san=san)]
     if isinstance(e, ast.Constant):
         return [Seg("const", str(e.value))]
@@ -151,6 +151,14 @@ def segments(ctx: Ctx, q, e, san=frozenset(), depth=0, quoters=frozenset()):
             return [Seg("dyn", expr=e, san=set(san) | {"plain"})]
         if name == "join" and isinstance(e.func, ast.Attribute) and e.args:
             return segments(ctx, q, e.args[0], san, depth + 1, quoters)
+        if isinstance(e.func, ast.Name) and name not in quoters:
+            r = ctx.p.resolve_name(fi.module, e.func.id)
+            if r and r[0] == "func" and ctx.p.functions[r[1]].module == fi.module and depth < 10:
+                hf = ctx.fn(r[1])
+                rets = [n for n in walk_function(hf.node) if isinstance(n, ast.Return) and n.value is not None and not (isinstance(n.value, ast.Constant) and n.value.value is None)]
+                if rets:
+                    alts = tuple(segments(ctx, r[1], n.value, san, depth + 1, quoters) for n in rets)
+                    return list(alts[0]) if len(alts) == 1 else [Seg("alt", expr=e, san=san, text=alts)]
         return [Seg("dyn", expr=e, san=san)]
     if isinstance(e, ast.Name):
         defs = [d for d in all_assignments(fi.node, e.id)]
@@ -347,7 +355,10 @@ def c15_r4(ctx: Ctx, rule):
                             return norm(n.iter).split(".")[-1], (frozenset(sset) if isinstance(sset, (set, frozenset)) else norm(t.test.comparators[0])), n
         return None
 
-    def partition(fq, name_hint):
+    def partition(fq0, name_hint):
+      for fq in ctx.helper_closure(fq0):
+        if ctx.fn(fq).module != DOT or fq.endswith("sorted_attributes"):
+            continue
         f = ctx.fn(fq)
         for n in walk_function(f.node):
             if isinstance(n, (ast.ListComp, ast.GeneratorExp)) and n.generators and any(n.generators[0].ifs):
@@ -361,7 +372,7 @@ def c15_r4(ctx: Ctx, rule):
                         s = None
                     if "attributes" in src:
                         return src.split(".")[-1], (frozenset(s) if isinstance(s, (set, frozenset)) else norm(cond.comparators[0])), n
-        return None
+      return None
 
     aq = bq + ".<locals>._attach_attribute_annotation"
     pa = partition(aq, "annotation") or loop_partition(aq, "attributes")
@@ -385,6 +396,10 @@ def c15_r4(ctx: Ctx, rule):
                             dec = (norm(g0.iter).split(".")[-1], frozenset(s) if isinstance(s, (set, frozenset)) else norm(cond.comparators[0]), d)
                     elif isinstance(d, ast.Attribute) and "attributes" in d.attr:
                         dec = (d.attr, "<property %s>" % d.attr, d)
+                    elif isinstance(d, ast.Call) and isinstance(d.func, ast.Name) and (DOT + "." + d.func.id) in ctx.p.functions and dec is None:
+                        hp = partition(DOT + "." + d.func.id, "helper")
+                        if hp:
+                            dec = hp
                     elif isinstance(d, (ast.List, ast.Call)) and dec is None:
                         lp = loop_partition(bq, nm)
                         if lp:
